@@ -92,7 +92,7 @@ func (tc *TransactionCache) Commit() {
 	}
 
 	// Clear the transaction cache
-	tc.main.addStats(tc.hit, tc.miss)
+	tc.main.addStats(tc.Stats())
 	tc.cache = make(map[string]valueNode)
 }
 
